@@ -61,9 +61,16 @@ def main():
               ["and", ["cmp", "eq", A("x", "b"), lit(1)], fa(["cmp", "lt", A("y", "a"), A("x", "a")])],
               ["or", ["cmp", "eq", A("x", "b"), lit(1)], fa(["cmp", "ne", A("y", "a"), A("x", "b")])]):
         cases.append({"cond": c, "ks": [1, 2, 3], "family": "forall"})
+    cases.append({"build_only": True, "cond": ["build_only"], "family": "build"})
     results = replay("lazy", cases)
     traces, meta = [], {}
     for i, (c, r) in enumerate(zip(cases, results)):
+        if "build_only" in r:
+            ctx.case(["construction of every expression kind"], True, sample={"touched": r["build_only"]})
+            if r["build_only"]:
+                ctx.violation({"construction_touched_user_data": r["build_only"]},
+                              note="constructing an expression read an attribute, called a method or advanced a domain iterator")
+            continue
         if r.get("error"):
             # the uninstrumented reference evaluation failed: nothing to compare (C01's business)
             continue
